@@ -17,6 +17,11 @@ CLAIMS = {
         technique="Kani/CBMC on OrderedQueue::{insert,pop,progress_to,next,new} extracted verbatim against the model BTreeMap: per-call contracts with whole-map frames over arbitrary queue states",
         text="Bounded stand-in, labelled: every method of the reorder buffer is checked against the property's clauses (stale/conflicting writes rejected without changing the buffer, duplicates merged once, only the write at the next expected sequence is handed over, eviction only of the largest key and reported) for ALL keys/next values but at most 3 buffered entries.",
         note="Bounded (entries <= 3, limit <= 3). Not decided: liveness (`eventually answered`), actor mailbox schedules, the async replicate.rs callers. Known finding: progress_to leaves entries below next."),
+    "C14": dict(
+        category="proof", design_ref="§4 C13/C14, U07",
+        technique="Verus unbounded proof on calculate_partition_replicas (exact: known members of replica_nodes(b,N,rf) in offset order; distinctness/length lemmas over the spec) and on the bucket-selection loops of calculate_assigned_partitions, both extracted verbatim",
+        text="For every cluster size (incl. N >= 256), bucket count, partition id and rf <= 12: the replica list is exactly the known nodes among (b%N + k)%N, k < min(rf,N), in offset order; with all nodes known it has exactly min(rf,N) pairwise distinct entries (lemma: k -> (a+k)%N injective); a node's bucket set is exactly the buckets whose replica set contains it, so `owns iff in replica set` holds by construction. Determinism across nodes follows from the result being a function of (arguments, known-node map).",
+        note="Assumed: vstd HashMap/HashSet specs; ArrayVec shim; rf <= 12 (ArrayVec capacity; not enforced by config validation); the filter/collect tail of calculate_assigned_partitions (std, no Verus spec: the proved fact is the bucket set before the tail). NOT decided: recalculate_partition_assignments over real HashMap iteration order, get_available_replicas' sort (closure), libp2p event delivery. Kani is infeasible here (64-bit symbolic modulo; measured > 20 min)."),
     "C23": dict(
         category="proof", design_ref="§4 C23 / U05",
         technique="Kani/CBMC complete harnesses (loop-free, full-domain symbolic ids/hashes/clock/RNG) on id.rs extracted verbatim; Verus contracts on the two bucket helpers; bounded Kani harness for Transaction::new",
